@@ -98,7 +98,10 @@ def rand_factors(rng, n, maxdim=3, square=False, kinds=KINDS):
     for _ in range(n):
         m = int(rng.integers(1, maxdim + 1))
         c = m if square else int(rng.integers(1, maxdim + 1))
-        mats.append(rint(rng, (m, c)))
+        a = rint(rng, (m, c))
+        if rng.integers(0, 4) == 0:
+            a = a * 2.0 ** int(rng.integers(-40, 41))       # power-of-two rescaling: all products and sums stay exact
+        mats.append(a)
         ks.append(str(rng.choice(kinds)))
     return ks, mats
 
@@ -320,23 +323,32 @@ def run(ctx):
             ctx.count('factor kind=' + k)
 
     # ---------------------------------------------------------------- modek_tprod
-    nmk = 400 if quick else 4000
+    # mode index k in -ndim .. ndim-1 (negative indices count from the end, as everywhere in numpy); oracle: the explicit matrix
+    # I (x) ... (x) B (x) ... (x) I applied to vec(X)
+    nmk = 500 if quick else 5000
     for _ in range(nmk):
         nd = int(rng.integers(1, 5))
         shp = tuple(int(rng.integers(1, 4)) for _ in range(nd))
-        k = int(rng.integers(0, nd))
+        kpos = int(rng.integers(0, nd))
+        k = kpos - nd if rng.integers(0, 2) else kpos
         kind = str(rng.choice(KINDS))
-        B = rint(rng, (int(rng.integers(1, 4)), shp[k]))
+        B = rint(rng, (int(rng.integers(1, 4)), shp[kpos]))
+        if rng.integers(0, 4) == 0:
+            B = B * 2.0 ** int(rng.integers(-40, 41))
         X = rint(rng, shp)
-        r = 'modek %s %d %s' % (fmt_op(kind, B), k, fmt_tensor(X))
-        e = add(r, lambda B=B, kind=kind, k=k, X=X: tensor.modek_tprod(mk(kind, B), k, X), {'op': 'modek', 'kind': kind})
+        # the model takes the normalised (non-negative) axis
+        r = 'modek %s %d %s' % (fmt_op(kind, B), kpos, fmt_tensor(X))
+        ctx.count('modek axis=' + ('negative' if k < 0 else 'non-negative')); ctx.count('modek ndim=%d' % nd)
+        e = add(r, lambda B=B, kind=kind, k=k, X=X: tensor.modek_tprod(mk(kind, B), k, X), {'op': 'modek', 'kind': kind, 'k': k, 'ndim': nd})
         try:
             Y = np.asarray(tensor.modek_tprod(mk(kind, B), k, X))
-            want = np.moveaxis(np.tensordot(B, X, axes=([1], [k])), 0, k)
+            pre = int(np.prod(shp[:kpos])) if kpos > 0 else 1; post = int(np.prod(shp[kpos + 1:])) if kpos < nd - 1 else 1
+            D = np.kron(np.kron(np.eye(pre), B), np.eye(post))
+            want = (D @ X.ravel()).reshape(shp[:kpos] + (B.shape[0],) + shp[kpos + 1:])
             if Y.shape != want.shape or not np.array_equal(Y, want):
-                oracle_bad.append(({'op': 'modek', 'kind': kind}, r, e, fmt_tensor(want)))
+                oracle_bad.append(({'op': 'modek', 'kind': kind, 'k': k, 'ndim': nd, 'call': 'modek_tprod(B %s %s, k=%d, X shape %s)' % (kind, B.shape, k, shp)}, r, e, fmt_tensor(want)))
         except Exception as ex:
-            oracle_bad.append(({'op': 'modek', 'kind': kind}, r, errtok(ex), 'no exception expected'))
+            oracle_bad.append(({'op': 'modek', 'kind': kind, 'k': k, 'ndim': nd}, r, errtok(ex), 'no exception expected'))
 
     # ---------------------------------------------------------------- Kronecker application routines
     nkr = 1200 if quick else 10000
@@ -808,7 +820,9 @@ def solver_streams(ctx, operators, solvers, rng):
             ctx.violation('ksolve-raise', '%s.dot(x) raised %s' % (what, type(ex).__name__), dict(replay, error=str(ex)[:300]), True)
             return None
         N = Kd.shape[0]
-        bound = 64.0 * N * eps * cond * max(1.0, float(np.abs(x).max())) * float(np.abs(Kd).sum(1).max())
+        # residual of a backward-stable (Kronecker product of) solve: |B y - x| <= c * eps * cond(B) * |x|  -- in units of x, invariant
+        # under rescaling of B
+        bound = 256.0 * N * eps * cond * max(1.0, float(np.abs(x).max()))
         res = np.abs(Kd @ y - x).max() if y.shape == x.shape else np.inf
         if not res <= bound:
             nres_bad += 1
@@ -819,7 +833,7 @@ def solver_streams(ctx, operators, solvers, rng):
             dt = [np.int64, np.int32, np.bool_, np.float32][int(rng.integers(0, 4))]
             xc = x.astype(dt); xf = xc.astype(np.float64)
             ctx.count('solver dtype probe=' + np.dtype(dt).name)
-            b2 = bound if dt is not np.float32 else bound + 64.0 * N * float(np.finfo(np.float32).eps) * cond * max(1.0, float(np.abs(xf).max())) * float(np.abs(Kd).sum(1).max())
+            b2 = bound if dt is not np.float32 else bound + 256.0 * N * float(np.finfo(np.float32).eps) * cond * max(1.0, float(np.abs(xf).max()))
             try:
                 yc = np.asarray(op.dot(xc)).astype(np.float64)
                 r2 = np.abs(Kd @ yc - xf).max() if yc.shape == xf.shape else np.inf
@@ -860,6 +874,10 @@ def solver_streams(ctx, operators, solvers, rng):
                 nn = exact_inv_norms(B)
                 if nn is not None:
                     break
+            if rng.integers(0, 3) == 0:
+                B = B * 2.0 ** int(rng.integers(-40, 41))         # rescaled problem: the exact reference rescales exactly
+                nn = exact_inv_norms(B)
+                ctx.count('ksolve power-of-two rescaled factor')
             c0 = nn[0] * nn[1]
             cond *= c0
             Bs.append(B); ks.append(str(rng.choice(['d', 'd', 'r', 'c']))); lay.append(str(rng.choice(['C', 'F', 'Tview', 'strided'])))
@@ -895,7 +913,7 @@ def solver_streams(ctx, operators, solvers, rng):
                 if y is not None:
                     # chain: the solver's output (an F-ordered array from the column-major sweeps) fed to the dense Kronecker operator
                     z = np.asarray(operators.KroneckerOperator(*[np.array(B) for B in Bs]).dot(y))
-                    bz = 64.0 * N * eps * cond * max(1.0, float(np.abs(x).max())) * float(np.abs(K).sum(1).max())
+                    bz = 256.0 * N * eps * cond * max(1.0, float(np.abs(x).max()))
                     if z.shape != x.shape or not np.abs(z - x).max() <= bz:
                         nres_bad += 1
                         ctx.violation('chain:kron-of-solver-output', 'KroneckerOperator(*Bs).dot(make_kronecker_solver(*Bs).dot(x)) differs from x by %g (bound %g); the solver output is %s-contiguous' % (
@@ -1043,6 +1061,11 @@ def solver_streams(ctx, operators, solvers, rng):
                     Kd, Md = sp.csr_matrix(Kd), sp.csr_matrix(Md)
             else:
                 Md = spd_int(rng, n); G = rint(rng, (n, n)); Kd = G + G.T + 8 * np.eye(n)
+            if rng.integers(0, 2):
+                # power-of-two rescaling of the stiffness and mass matrices (tiny or huge generalized eigenvalues, well conditioned)
+                ea, eb = int(rng.integers(-40, 41)), int(rng.integers(-40, 41))
+                Kd = Kd * 2.0 ** ea; Md = Md * 2.0 ** eb
+                ctx.count('fastdiag rescaled (eigenvalue exponent %+d0s)' % int(np.round((ea - eb) * np.log10(2.0) / 10)))
             if not sp.issparse(Kd):
                 how = str(rng.choice(['C', 'F', 'Tview', 'strided']))
                 Kd, Md = layout(Kd, how), layout(Md, how)
@@ -1086,8 +1109,9 @@ def solver_streams(ctx, operators, solvers, rng):
         EV = [scipy.linalg.eigh(a, b) for a, b in zip(*dn)]
         # contract of the parameter (spot check, labelled): K U = M U diag(lam), U^T M U = 1
         for (lam, U), a, b in zip(EV, *dn):
-            s = max(1.0, float(np.abs(a).max()), float(np.abs(b).max())) * max(1.0, float(np.abs(U).max()) ** 2) * max(1.0, float(np.abs(lam).max()))
-            if np.abs(a @ U - b @ U * lam).max() > 1e-9 * s or np.abs(U.T @ b @ U - np.eye(len(lam))).max() > 1e-9 * s:
+            # relative scales (the problems are rescaled by powers of two): |K U|, |M U Lam| for the first identity, 1 for the second
+            s1 = (float(np.abs(a).max()) + float(np.abs(b).max()) * float(np.abs(lam).max())) * float(np.abs(U).max()) * len(lam)
+            if np.abs(a @ U - b @ U * lam).max() > 1e-9 * s1 or np.abs(U.T @ b @ U - np.eye(len(lam))).max() > 1e-9 * len(lam):
                 ctx.notes.append('eigh contract spot check failed (parameter, not pyiga)')
         diags = []
         for d in range(dim):
